@@ -5,6 +5,36 @@ use glonax::core::Object;
 use glonax::driver::HydraulicControlUnit;
 use glonax::runtime::{J1939Unit, NetDriverContext};
 
+// ---- a hook on the driver's own log records: lets the harness run the command task's trigger in the middle of
+// tick (after tick has read the shared context, before it emits) - an interleaving of the real tasks that no
+// sequential stepping produces
+thread_local! {
+    static HOOK: std::cell::RefCell<Option<Box<dyn FnOnce() -> Vec<j1939::Frame>>>> = std::cell::RefCell::new(None);
+    static HOOK_OUT: std::cell::RefCell<Option<Vec<j1939::Frame>>> = std::cell::RefCell::new(None);
+}
+struct HookLog;
+impl log::Log for HookLog {
+    fn enabled(&self, _: &log::Metadata) -> bool { true }
+    fn log(&self, r: &log::Record) {
+        if r.target().contains("hydraulic") {
+            let f = HOOK.with(|h| h.borrow_mut().take());
+            if let Some(f) = f { let out = f(); HOOK_OUT.with(|o| *o.borrow_mut() = Some(out)); }
+        }
+    }
+    fn flush(&self) {}
+}
+static HOOKLOG: HookLog = HookLog;
+fn arm_hook(f: Box<dyn FnOnce() -> Vec<j1939::Frame>>) {
+    static ONCE: std::sync::Once = std::sync::Once::new();
+    ONCE.call_once(|| { let _ = log::set_logger(&HOOKLOG); });
+    log::set_max_level(log::LevelFilter::Trace);
+    HOOK.with(|h| *h.borrow_mut() = Some(f));
+}
+fn disarm_hook() -> (Option<Vec<j1939::Frame>>, Option<Box<dyn FnOnce() -> Vec<j1939::Frame>>>) {
+    log::set_max_level(log::LevelFilter::Off);
+    (HOOK_OUT.with(|o| o.borrow_mut().take()), HOOK.with(|h| h.borrow_mut().take()))
+}
+
 pub fn exec(c: &[i64]) -> Vec<i64> {
     if c[0] == 1000 { return crate::authrig::exec(&c[1..]); }
     let (da, sa) = (c[0] as u8, c[1] as u8);
@@ -34,6 +64,24 @@ pub fn exec(c: &[i64]) -> Vec<i64> {
                     let _ = rx_ready.recv();
                     let _ = hcu.trigger(&mut ctx, &mut tx, &Object::Motion(m));
                     let _ = h.join();
+                    i += 1 + used;
+                }
+                5 => {
+                    // the command arrives while tick is between reading the context and emitting its frames
+                    let Some((m, used)) = dec_motion(&evs[i + 1..]) else { return vec![-2] };
+                    let shared = ctx.clone();
+                    arm_hook(Box::new(move || {
+                        let unit = HydraulicControlUnit::new("vcan0", da, sa);
+                        let mut c2 = shared; let mut tx2 = Vec::new();
+                        let _ = unit.trigger(&mut c2, &mut tx2, &Object::Motion(m));
+                        tx2
+                    }));
+                    let _ = hcu.tick(&mut ctx, &mut tx);
+                    let (done, pending) = disarm_hook();
+                    // a tick that logs nothing gives the hook no chance: the command then simply follows the tick
+                    let tx2 = match (done, pending) { (Some(t), _) => t, (None, Some(f)) => f(), _ => Vec::new() };
+                    n += 1; enc_frames(&mut out, &tx);
+                    tx = tx2;
                     i += 1 + used;
                 }
                 2 => { let _ = hcu.trigger(&mut ctx, &mut tx, &other_object(evs[i + 1])); i += 2; }
@@ -140,6 +188,26 @@ pub fn gen(o: &Opts, sink: &mut dyn FnMut(Vec<i64>, String)) {
         m.clear(); letter(1 + rng.below(5), da, sa, &mut rng, &mut m); c.push(4); c.extend(&m[1..]);   // contended accept
         c.push(0); c.push(0);
         if rng.chance(1, 2) { c.push(4); c.push(0); c.push(0); }                                  // contended stop-all
+        sink(c, String::new());
+    }
+    // commands accepted in the MIDDLE of a cycle (between the cycle's read of the shared context and its emission):
+    // the accepted command is what the following cycles assert, whatever the cycle in flight was sending
+    for j in 0..(if o.tier_thorough { 3_000u64 } else { 300 }) {
+        k += 1;
+        if !mine(o, k) { continue; }
+        let mut rng = Rng::new(o.seed, 8_500_000 + j);
+        let (da, sa) = cfgs[(j % 3) as usize];
+        let mut c = vec![da, sa];
+        let mut m = Vec::new();
+        for _ in 0..(1 + rng.below(6)) {
+            match rng.below(4) {
+                0 => c.push(0),
+                1 => { m.clear(); letter(1 + rng.below(5), da, sa, &mut rng, &mut m); c.extend(&m); }
+                _ => { m.clear(); letter(1 + rng.below(5), da, sa, &mut rng, &mut m); c.push(5); c.extend(&m[1..]); }
+            }
+        }
+        c.push(5); c.push(0);          // a stop-all arriving mid-cycle
+        c.push(0); c.push(0);
         sink(c, String::new());
     }
     // the same property through the real NetworkAuthority on the emulated bus (command, tick and
